@@ -66,7 +66,7 @@ def _root_local(n):
         if k == "MethodCall":
             n = n.get("recv")
         elif k in ("Deref", "AddrOf", "Field", "Unary", "Borrow", "Index"):
-            n = n.get("e") or n.get("base") or n.get("o")
+            n = n.get("e") or n.get("base") or n.get("o") or n.get("a")
         else:
             return None, None
     return None, None
@@ -175,6 +175,14 @@ def analyse(facts, f, self_ids):
             elif early_ok:
                 g3 = False
                 problems.append(("G3", "an `Ok` return between push and pop leaves `%s` extended" % name, early_ok[0].get("ln")))
+        # G4: every call back into the recursion hands on this collection; a member of the cycle that starts a fresh one
+        # (`&mut vec![]`) forgets the path walked so far
+        for rc in recs:
+            args = ([rc.get("recv")] + rc.get("args", [])) if rc.get("k") == "MethodCall" else rc.get("args", [])
+            if not any(_root_local(a)[1] == lid for a in args if isinstance(a, dict)):
+                problems.append(("G4", "a recursive call does not pass `%s` on: the callee starts with an empty collection and a cycle "
+                                 "through it is never seen" % name, rc.get("ln")))
+                break
         cand = {"collection": name, "g1": g1, "g2": g2, "g3": g3, "problems": problems,
                 "tests": len(tests), "adds": len(adds), "dels": len(dels), "recursive_calls": len(recs)}
         if best is None or (cand["adds"], cand["tests"]) > (best["adds"], best["tests"]):
@@ -182,14 +190,19 @@ def analyse(facts, f, self_ids):
     return best
 
 
-def rule(facts, res, rule_name, comp_fns, want=("G1", "G2", "G3"), floor=1):
+def rule(facts, res, rule_name, comp_fns, want=("G1", "G2", "G3", "G4"), floor=1):
     """comp_fns: functions of the recursion cycles to look at.  Reports each failed clause of `want`."""
+    import e1
     st = res.rule(rule_name, instances=0)
     ids = {f["id"] for f in comp_fns}
+    scc_of = {}
+    for comp in e1.recursive_sccs(facts, ids):
+        for x in comp:
+            scc_of[x] = set(comp)
     for f in comp_fns:
         if "body" not in f:
             continue
-        a = analyse(facts, f, ids)
+        a = analyse(facts, f, scc_of.get(f["id"], {f["id"]}))
         if a is None:
             continue
         st["instances"] += 1
